@@ -93,6 +93,11 @@ func run(rc *runConfig) int {
 	for _, n := range names {
 		fs := prog.spec.Funcs[n]
 		fn := prog.funcs[n]
+		if fn == nil && fs.Trusted && strings.Contains(n, "[") {
+			if prog.funcs[n[:strings.Index(n, "[")]] != nil {
+				continue // type-specific contract of a trusted function
+			}
+		}
 		if fn == nil {
 			fmt.Printf("UNDECIDED property=%s contract target %q does not exist in the package\n", rc.prop, n)
 			undecided++
